@@ -130,7 +130,7 @@ func vReplayAll(fs *vrt.FS, dir string, max int) ([][]byte, error) {
 func H_C07_Replay() {
 	fs := vrt.NewFS()
 	defer fs.Cleanup()
-	dir := fs.Path("wal")
+	dir := fs.Path([]string{"wal", "wal[1]"}[vrt.Choose("dirname", 2)]) // a directory name may contain pattern characters
 	fs.MkdirAll(dir)
 	maxSize := vMaxSizes[vrt.Choose("maxsize", len(vMaxSizes))]
 	wbuf := []int{4, 64}[vrt.Choose("wbuf", 2)]
